@@ -22,7 +22,7 @@ class Mismatch(Exception):
 
 
 CURRENT = {}
-CFGS = ['v6', 'v7', 'v6-nosec', 'v7-virt']
+CFGS = ['v6', 'v7', 'v6-nosec', 'v7-virt', 'v6-rst']
 # Hypothesis favours small integers (see e1prop.mixed): a bijective scramble keeps shrinking / replay and gives high bits the same chance
 val = st.one_of(st.sampled_from(gen.CORNERS), st.integers(0, M32), st.integers(0, M32).map(lambda x: (x * 0x9E3779B1 + 0x7F4A7C15) & M32))
 
@@ -274,7 +274,7 @@ def nontrivial(res):
     return bool(classify(res, None))
 
 
-PLAN = e1prop.Plan('C10', WRAP_ROWS, cfgs=('v6', 'v7', 'v5', 'v7-tee', 'v7-virt'), classify=classify, nontrivial=nontrivial, tweak_case=wrap_tweak, tweak_word=_shape,
+PLAN = e1prop.Plan('C10', WRAP_ROWS, cfgs=('v6', 'v7', 'v5', 'v7-tee', 'v7-virt', 'v6-rst', 'v7-rst'), classify=classify, nontrivial=nontrivial, tweak_case=wrap_tweak, tweak_word=_shape,
                    case_kw=lambda rng, row: dict({'mpu': False, 'mmu': False, 'e': 1 if rng.random() < 0.25 else 0, 'code_base': rng.choice((0, 0xFFFFFF00, 0xFFFF0000, 0x8000, 0x7FFFFF80))},
                                                 **({'mode': rng.choice(('svc', 'irq', 'fiq', 'abt', 'und')), 'code_base': 0x8000} if row.name in RETURN_ROWS else {})))
 
@@ -310,7 +310,7 @@ def classify_all(res, case):
     return out
 
 
-PLAN_ALL = e1prop.Plan('C10', OTHER_ROWS, cfgs=('v6', 'v7', 'v7r', 'v5', 'v7-tee', 'v7-virt'), classify=classify_all, nontrivial=lambda res: bool(classify_all(res, None)),
+PLAN_ALL = e1prop.Plan('C10', OTHER_ROWS, cfgs=('v6', 'v7', 'v7r', 'v5', 'v7-tee', 'v7-virt', 'v6-rst'), classify=classify_all, nontrivial=lambda res: bool(classify_all(res, None)),
                        tweak_case=edge_tweak, case_kw=lambda rng, row: {'mpu': False, 'mmu': False, 'e': 1 if rng.random() < 0.25 else 0})
 
 
